@@ -168,6 +168,7 @@ type WriteFault struct {
 	Kind    string // "", "writeerr", "commiterr", "openerr"
 	AtWrite int    // writeerr: index of the failing Write
 	Partial int    // writeerr: bytes of that Write accepted before failing (taken modulo len)
+	OneShot bool   // writeerr: only that one Write fails (a transient error); later Writes succeed
 }
 
 // Writer wraps the store's writer.
@@ -187,9 +188,12 @@ func (w *Writer) Write(p []byte) (int, error) {
 	idx := w.Calls
 	w.Calls++
 	w.Sizes = append(w.Sizes, len(p))
-	if w.Failed {
+	if w.Failed && !w.F.OneShot {
 		w.AfterErr++
 		return 0, ErrInjectedWrite
+	}
+	if w.Failed {
+		w.AfterErr++
 	}
 	if w.F.Kind == "writeerr" && idx == w.F.AtWrite {
 		k := 0
